@@ -12,7 +12,7 @@ def sig(t, step, clause):
             detail += "|xml=%s" % a["xml"].split(":")[0]
         return "C20|Encutils|%s|%s" % (clause, detail)
     if a["kind"] == "sniff":
-        return "C20|Sniff|%s|doc=%s|xml=%s|short=%s" % (clause, a["doc"], a["xml"].split(":")[0], a["short"])
+        return "C20|Sniff|%s|doc=%s|xml=%s|short=%s" % (clause, a["doc"], a["xml"].split(":")[0], a["short"]) + ("" if a.get("incdef", True) else "|includeDefault=False")
     return "C20|MediaType|%s|%s" % (clause, a["mt"])
 
 
@@ -31,7 +31,7 @@ def main(tier, seed):
     run.cov["exhaustive"] = True
     run.cov["rule"] = ("TLC enumerates the complete decision table: 8 media-type classes x transport charset (none + 3) x XML "
                        "declaration / BOM (8 forms) x meta (none + 3) x document as text / bytes = 2048 rows, plus 96 sniffer rows "
-                       "(document kinds x stream position x short documents) and 8 media-type rows; every row is a distinct case")
+                       "(8 declaration / BOM forms x text / stream / bytes x stream position 0 / 3 x includeDefault on / off) and 8 media-type rows; every row is a distinct case")
     run.assumptions += ["a response without Content-Type header and a missing response object are not part of the table (the "
                         "statement does not say what they yield)",
                         "whether an XML default (no declaration, no BOM) takes part in mismatch detection is left open"]
